@@ -6,7 +6,8 @@ import e2misc
 def run(tier, seed, ev, jobs):
     rc = e2misc.run_tokeniser("C16", ev)
     rc = e1.combine(rc, e2misc.run_tracker("C16", ev))
-    ev.outside.append("split_into_sequences / parse_repetitive_sequence; texts longer than the stated sizes; find_field_with_variant_sequential_constrained")
+    rc = e1.combine(rc, e2misc.run_sequences("C16", ev, N=8 if tier == "quick" else 12))
+    ev.outside.append("texts longer than the stated sizes; find_field_with_variant_sequential_constrained")
     return e1.combine(rc, e1.run_e1("C16", tier, seed, ev, jobs))
 
 
